@@ -281,6 +281,10 @@ pub struct Ctx {
     pub cases_run: u64,
     pub registry: Registry,
     pub trace: bool,
+    /// `--all`: keep searching after a failure and remember the first
+    /// witness of every failing case name (with a count).
+    pub collect_all: bool,
+    pub failures: Vec<(Box<Found>, u64)>,
 }
 
 /// Executes one case with panic capture.  Harness errors are re-raised.
@@ -321,11 +325,21 @@ impl Ctx {
         }
         match run_case(f, &input) {
             Ok(()) => Ok(()),
-            Err(fail) => Err(Box::new(Found {
-                case: case.to_string(),
-                input,
-                fail,
-            })),
+            Err(fail) => {
+                let found = Box::new(Found {
+                    case: case.to_string(),
+                    input,
+                    fail,
+                });
+                if !self.collect_all {
+                    return Err(found);
+                }
+                match self.failures.iter_mut().find(|(f, _)| f.case == found.case) {
+                    Some((_, n)) => *n += 1,
+                    None => self.failures.push((found, 1)),
+                }
+                Ok(())
+            }
         }
     }
 }
